@@ -115,7 +115,9 @@ func (check) Enumerate(tier string, seed int64, group int, yield func(core.Case)
 		for j := range f.ops {
 			ids := []int{gd.a, j}
 			c := core.Case{Tag: "pair", Desc: func() interface{} { return cdesc{"pair", names(f, ids), bound} },
-				Run: func() core.Result { return explore(f, ids, bound) }}
+				Run: func() core.Result {
+					return memGuard(f, names(f, ids), func() core.Result { return explore(f, ids, bound) })
+				}}
 			if !yield(c) {
 				return
 			}
@@ -130,7 +132,9 @@ func (check) Enumerate(tier string, seed int64, group int, yield func(core.Case)
 			for _, nc := range coreMenu {
 				ids := []int{a, opIdx(nb), opIdx(nc)}
 				c := core.Case{Tag: "triple", Desc: func() interface{} { return cdesc{"triple", names(f, ids), bound} },
-					Run: func() core.Result { return explore(f, ids, bound) }}
+					Run: func() core.Result {
+						return memGuard(f, names(f, ids), func() core.Result { return explore(f, ids, bound) })
+					}}
 				if !yield(c) {
 					return
 				}
@@ -150,7 +154,9 @@ func (check) Enumerate(tier string, seed int64, group int, yield func(core.Case)
 					ids = append(ids, j)
 				}
 				return cdesc{Kind: fmt.Sprintf("histories of length <=%d with this prefix", depth), Threads: names(f, ids)}
-			}, Run: func() core.Result { return histories(f, gd.a, j, depth, opIdx) }}
+			}, Run: func() core.Result {
+				return memGuard(f, []string{f.ops[gd.a].name}, func() core.Result { return histories(f, gd.a, j, depth, opIdx) })
+			}}
 			if !yield(c) {
 				return
 			}
@@ -161,6 +167,31 @@ func (check) Enumerate(tier string, seed int64, group int, yield func(core.Case)
 		},
 			Run: func() core.Result { return raceMonitor() }})
 	}
+}
+
+// memGuard runs one case between two fingerprints of the descriptors' reachable memory: the statement's "no
+// read-side operation or conversion ever modifies ... the descriptor" for state no accessor exposes (lazily
+// built lookup tables, caches hung on the descriptor). Deterministic: independent of the schedule.
+func memGuard(f *fixture, ops []string, run func() core.Result) core.Result {
+	before, terms := f.descMem()
+	r := run()
+	after, terms2 := f.descMem()
+	r.Count("descriptor_memory_terms", int64(terms))
+	if before != after {
+		r.Add("descriptor|memory|modified-by-read-side-operation", "ops %v: the memory reachable from the shared descriptors changed while the case ran (fingerprint %016x over %d words -> %016x over %d words): a read-side operation or conversion wrote into the descriptor graph", ops, before, terms, after, terms2)
+		r.Class = "violation"
+	}
+	return r
+}
+
+// MinConfirmations: a data race reported by the race detector is a proof of a race (no false positives), but
+// whether the free-running monitor hits it depends on the OS schedule: one reproduction out of the re-runs is
+// enough. Everything else must reproduce every time.
+func (check) MinConfirmations(sig string, n int) int {
+	if strings.HasPrefix(sig, "race-monitor|free-running|race@") {
+		return 1
+	}
+	return n
 }
 
 func names(f *fixture, ids []int) []string {
